@@ -148,6 +148,18 @@ func workListElem(f *ssa.Function) types.Type {
 	return appended[cands[0]]
 }
 
+// sharedBuilderFlow: one builder flow per loaded program for the rules that only read it.
+var sharedBF = map[*Program]*builderFlow{}
+
+func sharedBuilderFlow(p *Program) *builderFlow {
+	if bf, ok := sharedBF[p]; ok {
+		return bf
+	}
+	bf := newBuilderFlow(p)
+	sharedBF[p] = bf
+	return bf
+}
+
 func newBuilderFlow(p *Program) *builderFlow {
 	bf := &builderFlow{}
 	entry := p.Trie.Func("NewSlimTrie")
